@@ -284,6 +284,18 @@ func genC05(g *G, n int, out io.Writer) {
 	}
 	for i := 0; i < n; i++ {
 		gr := g.graph(2+g.n(6), 0.55)
+		var hubLink, hubVal string
+		if g.coin(0.6) && len(gr) >= 4 {
+			// a hub: node 0 links to three or more nodes through one predicate, and those nodes share few scalar values of
+			// another one, so that a two-step path reaches equal values by different routes (in whatever order a document lists the links)
+			hubLink, hubVal = g.pick(propPool), g.pick(propPool)
+			var links []Val
+			for k := 1; k < len(gr); k++ {
+				links = append(links, VR(gr[k].Id))
+				setProp(&gr[k], NS+hubVal, []Val{VS(g.pick([]string{"same", "same", "other", "third"}))})
+			}
+			setProp(&gr[0], NS+hubLink, links)
+		}
 		c := C05Case{Op: "c05", Id: i, Graph: gr}
 		c.Docs = append(c.Docs, C05Doc{Text: gr.RenderFlat(), Form: "flat-canonical", Fragment: true})
 		c.Docs = append(c.Docs, g.serialise(gr, false, false), g.serialise(gr, false, true), g.serialise(gr, false, true), g.serialise(gr, true, g.coin(0.5)))
@@ -292,6 +304,34 @@ func genC05(g *G, n int, out io.Writer) {
 			prof := ProfileSpec{Name: fmt.Sprintf("c05_%d_%d", i, k), Atoms: pc.Atoms, Paths: pc.Paths, Validations: pc.Validations}
 			c.Profiles = append(c.Profiles, prof.Render())
 		}
+		{
+			// order-sensitive constraint kinds over multi-valued paths: uniqueValues (the only one evaluated over an array of values)
+			var up ProfileSpec
+			up.Name = fmt.Sprintf("c05_%d_unique", i)
+			t := true
+			paths := []Path{g.path(2), g.path(2), {Seq: []Path{PP(g.pick(propPool), false), PP(g.pick(propPool), false)}},
+				{Alt: []Path{PP(g.pick(propPool), false), PP(g.pick(propPool), false), PP(g.pick(propPool), g.coin(0.3))}}}
+			if hubLink != "" {
+				paths = append(paths, Path{Seq: []Path{PP(hubLink, false), PP(hubVal, false)}},
+					Path{Seq: []Path{PP(hubLink, false), {Alt: []Path{PP(hubVal, false), PP(g.pick(propPool), false), PP(g.pick(propPool), false)}}}})
+			}
+			for k, q := range paths {
+				up.Atoms = append(up.Atoms, Atom{Kind: "uniqueValues", Path: q, UArg: &t})
+				ix := k
+				up.Validations = append(up.Validations, Validation{Name: fmt.Sprintf("u%d", k), Class: NS + "T", Rule: Rule{Atom: &ix}})
+			}
+			c.Profiles = append(c.Profiles, up.Render())
+		}
 		enc.Encode(c)
 	}
+}
+
+func setProp(n *Node, iri string, vals []Val) {
+	for k := range n.Props {
+		if n.Props[k].Iri == iri {
+			n.Props[k].Vals = vals
+			return
+		}
+	}
+	n.Props = append(n.Props, Prop{Iri: iri, Vals: vals})
 }
